@@ -34,6 +34,18 @@ pub struct Schedule {
     /// schedules make long inputs with large chunks affordable under an owned schedule
     #[serde(default = "one")]
     pub yield_every: u16,
+    /// 0 = off; n > 0: every n-th `Drop` of an element on a registered thread is a yield point too. A destructor may run
+    /// inside a critical section of the library, so this park is *revocable*: if the thread that was given the token makes no
+    /// progress for 10 ms (it may be blocked on something the parked thread holds), the parked thread goes on without the token
+    /// until its next yield point. Revocations are counted; on the unchanged tree there are none.
+    #[serde(default)]
+    pub drop_yield: u8,
+    /// 0 = off; n > 0: every n-th `next()` of the instrumented by-value source iterator is a (revocable) yield point as
+    /// well - the thread parks *inside* the user's iterator, holding the library's pull handle; threads that need the
+    /// handle spin, the park is revoked after 10 ms and the pull completes. This reaches interleavings between reserving a
+    /// position and receiving the element, which closure-entry yield points cannot produce.
+    #[serde(default)]
+    pub src_yield: u8,
 }
 fn one() -> u16 {
     1
@@ -60,6 +72,7 @@ struct St {
     /// (number of candidates, chosen index) per decision with more than one candidate
     decisions: Vec<(u8, u8)>,
     hand_overs: u64,
+    revoked: u64,
 }
 
 impl St {
@@ -81,6 +94,7 @@ impl St {
             weights: [1; NW],
             decisions: Vec::new(),
             hand_overs: 0,
+            revoked: 0,
         }
     }
 
@@ -172,10 +186,14 @@ static CV: Condvar = Condvar::new();
 static ACTIVE: AtomicBool = AtomicBool::new(false);
 static INSTALL: Once = Once::new();
 static YIELD_EVERY: std::sync::atomic::AtomicU32 = std::sync::atomic::AtomicU32::new(1);
+static DROP_YIELD: std::sync::atomic::AtomicU32 = std::sync::atomic::AtomicU32::new(0);
+static SRC_YIELD: std::sync::atomic::AtomicU32 = std::sync::atomic::AtomicU32::new(0);
 
 thread_local! {
     static REGISTERED: Cell<bool> = const { Cell::new(false) };
     static CALLS: Cell<u32> = const { Cell::new(0) };
+    static DROPS: Cell<u32> = const { Cell::new(0) };
+    static NEXTS: Cell<u32> = const { Cell::new(0) };
 }
 
 const WATCHDOG: Duration = Duration::from_secs(30);
@@ -248,11 +266,82 @@ pub fn yield_point() {
         }
     }
     let me = obs::tid();
-    let st = lock();
+    let mut st = lock();
     if !st.active || !st.in_run {
         return;
     }
+    if st.token != Some(me) {
+        // this thread went on without the token after a revoked park (see `drop_yield_point`)
+        if st.token.is_none() {
+            st.token = Some(me);
+        } else {
+            st.parked[me as usize] = true;
+            CV.notify_all();
+            wait_for_token(st, me);
+            return;
+        }
+    }
     hand_over_and_wait(st, me);
+}
+
+/// Yield point inside `Drop` of the element type (scheduled mode, opt-in per case): revocable park.
+pub fn drop_yield_point() {
+    if !ACTIVE.load(Ordering::Relaxed) || std::thread::panicking() {
+        return;
+    }
+    revocable_yield(DROP_YIELD.load(Ordering::Relaxed), &DROPS);
+}
+
+/// Yield point inside `next()` of the instrumented source iterator (scheduled mode, opt-in per case): revocable park.
+pub fn src_yield_point() {
+    if !ACTIVE.load(Ordering::Relaxed) {
+        return;
+    }
+    revocable_yield(SRC_YIELD.load(Ordering::Relaxed), &NEXTS);
+}
+
+fn revocable_yield(every: u32, counter: &'static std::thread::LocalKey<Cell<u32>>) {
+    if every == 0 || !REGISTERED.with(|r| r.get()) {
+        return;
+    }
+    let n = counter.with(|c| {
+        let n = c.get().wrapping_add(1);
+        c.set(n);
+        n
+    });
+    if n % every != 0 {
+        return;
+    }
+    let me = obs::tid();
+    let mut st = lock();
+    if !st.active || !st.in_run || st.token != Some(me) {
+        return;
+    }
+    st.parked[me as usize] = true;
+    let next = st.choose().expect("the caller is parked");
+    st.parked[next as usize] = false;
+    st.token = Some(next);
+    if next == me {
+        return;
+    }
+    st.hand_overs += 1;
+    CV.notify_all();
+    // revocable wait
+    let deadline = std::time::Instant::now() + Duration::from_millis(10);
+    loop {
+        if st.token == Some(me) {
+            return;
+        }
+        let now = std::time::Instant::now();
+        if now >= deadline {
+            // whoever runs may be blocked (or spinning) on something this thread holds: go on without the token
+            st.parked[me as usize] = false;
+            st.revoked += 1;
+            return;
+        }
+        let (g, _) = CV.wait_timeout(st, deadline - now).unwrap_or_else(|e| e.into_inner());
+        st = g;
+    }
 }
 
 fn wait_registered(mut st: std::sync::MutexGuard<'static, St>, n: usize) -> std::sync::MutexGuard<'static, St> {
@@ -320,9 +409,15 @@ fn hook(ev: Event) {
         Event::WorkerEnd { index, panicking } => {
             obs::record(Kind::WorkerEnd, 0, panicking as u32, index as u64);
             if REGISTERED.with(|r| r.replace(false)) {
-                let st = lock();
+                let mut st = lock();
                 if st.active {
-                    give_away(st);
+                    let me = obs::tid();
+                    if st.token == Some(me) || st.token.is_none() {
+                        give_away(st);
+                    } else {
+                        // a thread that went on without the token (revoked park) ends: nothing to hand over
+                        st.parked[me as usize] = false;
+                    }
                 }
             }
         }
@@ -381,6 +476,8 @@ pub fn begin_case(schedule: Option<&Schedule>) {
         st.policy = s.policy;
         st.tape = s.tape.clone();
         YIELD_EVERY.store(s.yield_every.max(1) as u32, Ordering::SeqCst);
+        DROP_YIELD.store(s.drop_yield as u32, Ordering::SeqCst);
+        SRC_YIELD.store(s.src_yield as u32, Ordering::SeqCst);
         for (i, w) in s.weights.iter().take(NW).enumerate() {
             // workers always have weight >= 1 (fairness); the spawner (slot 0) may be starved
             st.weights[i] = if i == 0 { *w } else { (*w).max(1) };
@@ -399,6 +496,8 @@ pub struct SchedReport {
     pub decisions: Vec<(u8, u8)>,
     pub hand_overs: u64,
     pub tape_used: usize,
+    /// parks inside `Drop` that were revoked (the thread given the token made no progress for 10 ms)
+    pub revoked: u64,
 }
 
 pub fn end_case() -> SchedReport {
@@ -407,7 +506,10 @@ pub fn end_case() -> SchedReport {
         decisions: std::mem::take(&mut st.decisions),
         hand_overs: st.hand_overs,
         tape_used: st.tape_pos,
+        revoked: st.revoked,
     };
+    DROP_YIELD.store(0, Ordering::SeqCst);
+    SRC_YIELD.store(0, Ordering::SeqCst);
     st.active = false;
     ACTIVE.store(false, Ordering::SeqCst);
     REGISTERED.with(|r| r.set(false));
